@@ -229,6 +229,7 @@ for _pid, _extra in {
 # run-length, numeric-field and host-form alphabets; closing-handshake races; re-established connections (wave l)
 for _pid, _extra in {
     "C09": "Status LINES as text: the status field of an otherwise valid upgrade in all 34 spellings of the shared numeric-field alphabet (exact / lenient / ambiguous / other: longer digit strings that start with 101, fractions, signs, Unicode digits ...) x 5 reason tails x 2 HTTP versions, plus decoy lines that carry 101 elsewhere; a field no reading of which gives 101 must be refused.",
+    "C10": "The 43 host forms of C18 x 5 scheme / port pairs x 3 option sets: the Host header repeats the URL's host (IPv6 bracketed; names compared case-insensitively).",
     "C12": "A sender under short writes against a thread that starts the closing handshake (by reading the server's Close frame, by send_close(), by close()), judged write call by write call: when a thread writes, no other thread may have an unfinished frame on the wire.",
     "C16": "The measured connection may also be one re-established by reconnect inside the same run_forever (first connection lost), with two payloads.",
     "C17": "Every numeric text field of a response (status 101/301/404, Content-Length, the port of a Location; 200/407 of a proxy reply) in all spellings of the shared numeric-field alphabet, including characters that are digits to str.isdigit() but not to int().",
